@@ -332,6 +332,61 @@ def shape_label_injective(ctx, clause):
     return obs
 
 
+def statement_line_table(ctx, clause):
+    """One constraint line of a shape, as the two ShExC statement serializers write it: [^] property value(s joined by OR)
+    [cardinality] and a ';' exactly when another constraint follows; the statement's comments come after it, in order.
+    Both serializers are interpreted (object mode) over direction x position x cardinality; tokens are compared, not spacing."""
+    p = ctx.p
+    NS = {"http://e/": "e"}
+    A, B = "%<http://weso.es/shapes/A>", "%<http://weso.es/shapes/B>"
+    obs, rows = [], 0
+    for cname, stc in (("BaseStatementSerializer", "Statement"), ("FixedPropChoiceStatementSerializer", "FixedPropChoiceStatement")):
+        f = p.method(cname, "serialize_statement_with_indent_level")
+        bad = []
+        for inv in (False, True):
+            for last in (False, True):
+                for card, card_txt in ((2, "{2}"), ("+", "+")):
+                    ev = Evaluator(ctx, max_depth=12)
+                    ev.concrete_classes = {cname, "BaseStatementSerializer", stc, "Statement"}
+                    ser = ev.new(p.find_class(cname), instantiation_property_str="http://www.w3.org/1999/02/22-rdf-syntax-ns#type",
+                                 frequency_serializer=None, disable_comments=True, is_inverse=inv)
+                    kw = dict(st_property="http://e/p", cardinality=card, n_occurences=3, probability=0.5, comments=["# c1", "# c2"],
+                              serializer_object=ser, is_inverse=inv)
+                    if stc == "Statement":
+                        kw["st_type"] = A
+                        targets = ["@<http://weso.es/shapes/A>"]
+                    else:
+                        kw["st_types"] = [A, B]
+                        targets = ["@<http://weso.es/shapes/A>", "OR", "@<http://weso.es/shapes/B>"]
+                    st = ev.new(p.find_class(stc), **kw)
+                    rows += 1
+                    desc = "%s %s constraint, %s" % ("inverse" if inv else "direct", card_txt, "last of its shape" if last else "followed by another")
+                    try:
+                        out = ev.invoke(ser, "serialize_statement_with_indent_level", [],
+                                        {"a_statement": st, "is_last_statement_of_shape": last, "namespaces_dict": NS}, 0)
+                    except Raised as r_:
+                        bad.append("%s: raises %s" % (desc, r_.exc))
+                        continue
+                    if not (isinstance(out, list) and out and all(isinstance(t, tuple) and len(t) == 2 and isinstance(t[0], str) for t in out)):
+                        bad.append("%s: result is not a list of (line, indent) pairs: %r" % (desc, out))
+                        continue
+                    line = out[0][0].rstrip()
+                    semi = line.endswith(";")
+                    toks = (line[:-1] if semi else line).split()
+                    want = (["^"] if inv else []) + ["e:p"] + targets + [card_txt]
+                    if toks != want:
+                        bad.append("%s: line `%s` has tokens %s, expected %s" % (desc, line, toks, want))
+                    elif semi == last:
+                        bad.append("%s: line `%s` %s - the document does not parse" % (
+                            desc, line, "ends with ';' although nothing follows" if semi else "lacks the ';' that separates it from the next constraint"))
+                    elif [t[0] for t in out[1:]] != ["# c1", "# c2"]:
+                        bad.append("%s: comments after the line are %s" % (desc, [t[0] for t in out[1:]]))
+        obs.append(Ob(clause, "R-TABLE", "R-TABLE|statement-line|%s" % cname, f.loc(), not bad,
+                      "%s writes [^] property value(s) cardinality, ';' iff another constraint follows, then the comments" % cname
+                      if not bad else "; ".join(bad[:3])))
+    return obs, rows
+
+
 def check(ctx, tier):
     g = ctx.flow
     obs = []
@@ -362,8 +417,11 @@ def check(ctx, tier):
     obs += ctx.attempt(prefix_choice_table, ctx, "D-i", default=[])
     obs += ctx.attempt(lambda c, cl: prio.check(c, cl)[0], ctx, "D-j", default=[])
     obs += ctx.attempt(shape_label_injective, ctx, "D-k", default=[])
+    o_line, n_line = ctx.attempt(statement_line_table, ctx, "D-f", default=([], 0))
+    obs += o_line
     exceptions.apply(obs)
-    return {"obs": obs, "floors": [Floor("shapes_namespace call sites", n_pl, 6), Floor("prefix insertion sites", n_g, 3), Floor("emission loops", n_l, 4)],
+    return {"obs": obs, "floors": [Floor("shapes_namespace call sites", n_pl, 6), Floor("prefix insertion sites", n_g, 3), Floor("emission loops", n_l, 4),
+                                   Floor("statement-line rows", n_line, 16)],
             "explanation": "Closedness and well-formedness clauses visible in the code: every label producer receives the configured "
                            "namespace (forwarding at every call site), dropping a shape is paired with dropping the statements that point "
                            "to it in every direction and iterated to a fixpoint, references exist only for instances, prefixes are "
